@@ -204,11 +204,15 @@ def model(doc0, segs):
                         flat += list(c.node)
                     else:
                         flat.append(c)
+                if op == () and corpus.is_list(doc0):
+                    # a Collector flattens the one Array it gathered: the
+                    # root operand of a sequence document names its elements
+                    flat = refquery.children(refquery.root_ctx(doc0))
                 if op != () and not flat:
                     # (the engine's collectors need every operand to match)
                     return ("nomatch",)
                 ctxs += flat
-            if any(op == () for op in segs[1]):
+            if any(op == () for op in segs[1]) and not corpus.is_list(doc0):
                 return ("root",)
         except refquery.Unspecified as ex:
             return ("unspecified", str(ex))
